@@ -120,6 +120,8 @@ type Cfg struct {
 	// Jitter > 0 moves every vertex off the lattice by a seeded amount of up
 	// to Jitter lattice units in each direction: the general-position class.
 	Jitter float64
+	// SpareCap gives some sequences unused capacity after their last ordinate.
+	SpareCap bool
 }
 
 func (c *Cfg) alloc(n int) []float64 {
@@ -170,7 +172,14 @@ func (g *Gen) jit() float64 {
 // seq builds a Sequence from lattice points.
 func (g *Gen) seq(pts [][2]int) geom.Sequence {
 	d := g.CT.Dimension()
-	fs := g.Cfg.alloc(len(pts) * d)
+	// Some sequences get spare capacity behind their last coordinate (as a
+	// WKT-parsed LineString or a Sequence.Slice has): an operation that
+	// appends in place onto an operand's storage then writes into it.
+	spare := 0
+	if g.Cfg.SpareCap && g.S.Intn(2, "seq/spare") == 1 {
+		spare = 1 + g.S.Intn(8, "seq/sparen")
+	}
+	fs := g.Cfg.alloc(len(pts)*d + spare)[: len(pts)*d : len(pts)*d+spare]
 	for i, p := range pts {
 		if g.Cfg.Jitter > 0 && i > 0 && i == len(pts)-1 && p == pts[0] {
 			copy(fs[i*d:i*d+2], fs[0:2]) // closing vertex of a ring: same floats as the first
